@@ -204,6 +204,13 @@ impl Run {
         }
     }
 
+    fn status_of(&self, r: usize) -> String {
+        match &self.reps[r] {
+            Some(rep) => format!("{:?}", crate::obs::status_map(rep)),
+            None => String::new(),
+        }
+    }
+
     fn items_of(&self, r: usize) -> BTreeMap<String, Arc<Vec<u8>>> {
         self.stores[r].lock().unwrap().items()
     }
@@ -473,12 +480,17 @@ impl Run {
                 }
             }
             "sync" => {
+                // exchange in both directions until neither side learns anything new: no item is
+                // written and no replica's set of known/applied blocks changes during a full round
                 let s = op["s"].as_u64().unwrap_or(0) as usize % self.reps.len();
-                if s == r {
+                if s == r || self.reps[s].is_none() {
                     return;
                 }
-                for _round in 0..4 {
-                    let before = (self.items_of(r).len(), self.items_of(s).len());
+                let mut rounds = 0;
+                let mut converged = false;
+                for _round in 0..6 {
+                    rounds += 1;
+                    let before = (self.items_of(r).len(), self.items_of(s).len(), self.status_of(r), self.status_of(s));
                     self.exec(&json!({"op": "meld", "r": r, "s": s}));
                     self.exec(&json!({"op": "refresh", "r": r}));
                     self.exec(&json!({"op": "meld", "r": s, "s": r}));
@@ -486,13 +498,14 @@ impl Run {
                     if self.dead {
                         return;
                     }
-                    let after = (self.items_of(r).len(), self.items_of(s).len());
+                    let after = (self.items_of(r).len(), self.items_of(s).len(), self.status_of(r), self.status_of(s));
                     if before == after {
+                        converged = true;
                         break;
                     }
                 }
                 let out = Outcome { kind: "ok", msg: String::new(), val: Value::Null };
-                self.emit("Synced", r, json!({"s": rname(s)}), &out, json!({"peer": rname(s)}));
+                self.emit("Synced", r, json!({"s": rname(s)}), &out, json!({"peer": rname(s), "rounds": rounds, "converged": converged}));
             }
             "damage" => self.damage(r, op),
             _ => {}
